@@ -768,6 +768,13 @@ def stepUpdate (s : Store) (sender : String) (p : AnyParams) : Res Store :=
   | .service q => (updateParams serviceValidate id authority sender q).map fun r => { s with service := r }
   | .token q => (updateParams tokenValidate id authority sender q).map fun r => { s with token := r }
 
+/-- the message server's `UpdateParams` called WITHOUT the router's `ValidateBasic` pre-check (the
+    handler-level path): the authority comparison comes first, then `Keeper.SetParams` validates.
+    For the authority this is `stepUpdate` (validation once instead of twice); for anyone else it is
+    a plain rejection — even when the submitted set would make `Validate` panic. -/
+def stepUpdateDirect (s : Store) (sender : String) (p : AnyParams) : Res Store :=
+  if sender ≠ authority then .error .reject else stepUpdate s sender p
+
 structure UpdateOp where
   sender : String
   params : AnyParams
